@@ -3,6 +3,7 @@ import concurrent.futures
 import json
 import os
 import re
+import subprocess
 import time
 
 import vf
@@ -13,7 +14,7 @@ GEN_SUBST = {
     "Funcs": ("<-", "F_Funcs"), "Builtins": ("<-", "F_Builtins"), "UseLen": ("<-", "F_UseLen"),
     "UseCond": ("<-", "F_UseCond"), "UseIdx": ("<-", "F_UseIdx"), "SliceShapes": ("<-", "F_SliceShapes"),
     "ArrLens": ("<-", "F_ArrLens"), "MapLens": ("<-", "F_MapLens"), "Guard": ("<-", "F_Guard"),
-    "OrderGuard": ("<-", "F_OrderGuard"),
+    "OrderGuard": ("<-", "F_OrderGuard"), "AnyColl": ("<-", "F_AnyColl"),
 }
 
 
@@ -230,9 +231,9 @@ def run_check(prop, tier, stages, rule, level="model_checking", assumptions=None
 
 C01_FAMILIES = {
     "quick": [("arith", 4), ("logic", 4), ("string", 4), ("coll", 4), ("access", 4), ("builtin", 5), ("mixed", 4),
-              ("calls", 5), ("inlit", 6), ("rng", 5), ("nest", 8)],
+              ("calls", 5), ("inlit", 6), ("rng", 5), ("nest", 8), ("dyn", 5)],
     "thorough": [("arith", 5), ("logic", 5), ("string", 5), ("coll", 5), ("access", 5), ("builtin", 6), ("mixed", 5),
-                 ("calls", 6), ("inlit", 7), ("rng", 6), ("nest", 9)],
+                 ("calls", 6), ("inlit", 7), ("rng", 6), ("nest", 9), ("dyn", 6)],
 }
 EVAL_ASSUME = ["harness Abs/Concretize projection (harness/val.go) is faithful",
                "TLC evaluates Sem!Eval as written",
@@ -303,6 +304,74 @@ def validate_traces(acc, name, trace_path, verdict_fields, record_sum=None, time
     return done, mism
 
 
+def shape_stage(name="shape-repo-tests"):
+    """The repository's own test suite run with the verif hooks on and a value-free recorder laid over package vm
+    (go test -overlay: /repo is not modified); every run of the machine it performs is validated by TLC against
+    the stack-shape machine (VMShape.tla, Trace_Shape.tla)."""
+    def f(acc, binary, s):
+        with vf.Scratch(acc.prop + "-" + name) as d:
+            ov = os.path.join(d, "overlay.json")
+            with open(ov, "w") as fh:
+                json.dump({"Replace": {os.path.join(vf.REPO, "vm", "verif_shape.go"):
+                                       os.path.join(vf.HARNESS_SRC, "shape", "verif_shape.go.txt")}}, fh)
+            rec = os.path.join(d, "rec")
+            os.makedirs(rec)
+            env = vf.goenv()
+            env["VERIF_SHAPE_DIR"] = rec
+            p = subprocess.run(["go", "test", "-tags", "verif", "-vet=off", "-count=1", "-overlay", ov, "./..."], cwd=vf.REPO,
+                               env=env, capture_output=True, text=True, timeout=1500)
+            # (a failing test of the suite is not this check's business; no recorded run is)
+            lines, seen, total = [], set(), 0
+            for fn in sorted(os.listdir(rec)):
+                for line in open(os.path.join(rec, fn)):
+                    if not line.strip():
+                        continue
+                    total += 1
+                    r = json.loads(line)
+                    key = json.dumps([r["prog"], r["events"], r["complete"]])
+                    if key in seen:
+                        continue
+                    seen.add(key)
+                    r["run"] = len(lines) + 1
+                    lines.append(json.dumps(r))
+            if not lines:
+                raise vf.Infra("the shape recorder saw no run of the repository's test suite\n" + p.stdout[-800:] + p.stderr[-800:])
+            trace = os.path.join(d, "trace.ndjson")
+            with open(trace, "w") as fh:
+                fh.write("\n".join(lines) + "\n")
+            tcfg = vf.cfg_text({"TraceFile": "trace.ndjson"}, spec="SSpec", invariants=("SNoNegativeDepth",))
+            out = os.path.join(d, "out.ndjson")
+            st = vf.run_tlc("Trace_Shape", tcfg, out_cases=out, workers=1, timeout=1500,
+                            extra_files={"trace.ndjson": open(trace, "rb").read()}, name=acc.prop + "-shape")
+            done, mism = None, []
+            for line in open(out):
+                r = json.loads(line)
+                if r.get("kind") == "done":
+                    done = r
+                elif r.get("kind") == "mismatch":
+                    mism.append(r)
+            if done is None:
+                raise vf.Infra("shape validation did not consume the whole trace")
+            acc.add_tlc(name + "-validate", st)
+            for r in mism:
+                acc.failures.append({"prop": acc.prop, "stage": name, "why": "shape:" + r["field"], "src": r["src"], "mode": "shape",
+                                     "trace_run": r["run"], "at": r["at"], "want": r.get("want"), "got_field": r.get("got"),
+                                     "tags": [lines[r["run"] - 1][:1500]]})
+            acc.execs += total
+            acc.nontrivial += done["runs"] - done["rejected"]
+            acc.extra["shape_runs_recorded"] = total
+            acc.extra["shape_runs_distinct_validated"] = done["runs"]
+            acc.extra["shape_failed_runs_validated"] = sum(1 for l in lines if '"complete":false' in l.replace(" ", ""))
+            if len(acc.samples) < 8:
+                first = json.loads(lines[0])
+                first["events"] = first["events"][:6]
+                acc.samples.append({"shape_run": first})
+            vf.log("[%s] stage %-22s %d runs of the repository's test suite recorded, %d distinct validated against Trace_Shape "
+                   "(%d states, %ss): %d rejected" % (acc.prop, name, total, done["runs"], st.get("distinct", 0), st.get("wall_s"),
+                                                      done["rejected"]))
+    return Stage(name, None, None, func=f)
+
+
 def trace_stage(name, family, maxnodes, every, modes="struct:noopt,struct:opt", verdict_fields=VM_VERDICT_FIELDS,
                 max_runs=4000, maxclosure=2, wfonly=False):
     gcfg = gen_cfg(family, maxnodes, maxclosure=maxclosure)
@@ -331,7 +400,7 @@ def trace_stage(name, family, maxnodes, every, modes="struct:noopt,struct:opt", 
 # C05
 
 def mc_vm_cfg(family, n, operand_mod=65536, reject=True, mode="typed", maxclosure=2, emit="none",
-              invariants=("Conforms", "ProgramWellFormed", "RunsClean")):
+              invariants=("Conforms", "ProgramWellFormed", "RunsClean", "ShapeAbstracts")):
     return gen_cfg(family, n, maxclosure=maxclosure, emit=emit, invariants=invariants,
                    extra={"OperandMod": operand_mod, "Mode": mode, "RejectOverflow": reject})
 
@@ -369,6 +438,8 @@ def stages_C05(tier):
     # VM!WellFormed evaluated by TLC on the real bytes of EVERY program of the corpora (no run, not sampled)
     for fam, n in [("logic", 4), ("builtin", 5), ("mixed", 4), ("calls", 5)] + ([("coll", 4), ("access", 4), ("string", 4)] if tier == "thorough" else []):
         out.append(trace_stage("wellformed-%s" % fam, fam, n, 1, max_runs=1000000, wfonly=True))
+    # the repository's own test traffic against the value-free stack-shape machine
+    out.append(shape_stage())
     ev = 7 if tier == "quick" else 2
     for fam, n in [("builtin", 5), ("mixed", 4), ("logic", 4), ("coll", 4), ("calls", 5), ("access", 4)]:
         out.append(trace_stage("trace-%s" % fam, fam, n, ev, max_runs=3000 if tier == "quick" else 20000))
